@@ -139,6 +139,36 @@ def processBotMessageOk (prog : List V1El) : Bool :=
       (match findIdx? (isCallFlow "run output rails") prog 0 with | some c => decide (i < c) | none => false)
   | none => false
 
+/-- The two-context model (`Models/PipelineCtx.lean`) relies on the variable being (re)assigned by a `set` element —
+    which `slide` publishes as a `ContextUpdate` — BEFORE the rails of the turn run: `$var = expr` occurs exactly
+    once, it is the element right after the flow's first event match, and it precedes `do <rails flow>`. -/
+def setFirstThenCall (var expr flow : String) (prog : List V1El) : Bool :=
+  countP (fun e => match e with | .setVar x _ => x == var | _ => false) prog == 1 &&
+  match findIdx? (fun e => match e with | .matchEv _ => true | _ => false) prog 0,
+        findIdx? (isSet var expr) prog 0, findIdx? (isCallFlow flow) prog 0 with
+  | some m, some a, some c => decide (a = m + 1 ∧ a < c)
+  | _, _, _ => false
+
+/-- The rail loops themselves never assign the message variables (only the rail flows they call may). -/
+def noSetOf (vars : List String) (prog : List V1El) : Bool :=
+  prog.all fun e => match e with
+    | .setVar x _ => !vars.contains x
+    | .execute _ k => !vars.contains k
+    | _ => true
+
+/-- Everything between `do run output rails` and the utterance is marker events only: no `set`, no action with a
+    result key, no other flow call — so the script that is uttered is the variable as the rails left it. -/
+def onlyMarkersBetween (flow evName : String) (prog : List V1El) : Bool :=
+  match findIdx? (isCallFlow flow) prog 0, findIdx? (isCreate evName) prog 0 with
+  | some c, some u =>
+    decide (c < u) &&
+    ((prog.take u).drop (c + 1)).all fun e => match e with
+      | .createEvent _ _ => true
+      | .matchEv _ => true
+      | .jump _ => true
+      | _ => false
+  | _, _ => false
+
 /-- `generate bot message`: `retrieve_relevant_chunks` is executed before `generate_bot_message`. -/
 def generateBotMessageOk (prog : List V1El) : Bool :=
   match findIdx? (isExecute "retrieve_relevant_chunks") prog 0, findIdx? (isExecute "generate_bot_message") prog 0 with
